@@ -124,7 +124,3 @@ package transport
 //@ func AcceptRawSocket
 //@   props C04
 //@   requires !isnil(conn) && !isnil(logger)
-
-//@ func ConnectRawSocketPeer
-//@   props C04
-//@   requires !isnil(ctx) && !isnil(logger)
